@@ -27,6 +27,16 @@ var Root = func() string {
 	return "/verif"
 }()
 
+// OutRoot is where evidence and replay files are written: Root, unless VERIF_OUT names another
+// directory (used when checks are run against scratch copies with deliberate defects, so that
+// the evidence of the real tree is not overwritten).
+var OutRoot = func() string {
+	if r := os.Getenv("VERIF_OUT"); r != "" {
+		return r
+	}
+	return Root
+}()
+
 type Tier string
 
 const (
@@ -330,8 +340,8 @@ func (r *Recorder) Finish() int {
 		"violations":  nviol,
 	}
 	b, _ := json.MarshalIndent(evd, "", " ")
-	os.MkdirAll(filepath.Join(Root, "evidence"), 0o755)
-	if err := os.WriteFile(filepath.Join(Root, "evidence", r.Property+".json"), append(b, '\n'), 0o644); err != nil {
+	os.MkdirAll(filepath.Join(OutRoot, "evidence"), 0o755)
+	if err := os.WriteFile(filepath.Join(OutRoot, "evidence", r.Property+".json"), append(b, '\n'), 0o644); err != nil {
 		fmt.Fprintln(os.Stderr, "cannot write evidence:", err)
 		return 2
 	}
@@ -343,7 +353,7 @@ func (r *Recorder) Finish() int {
 func (r *Recorder) writeReplay(v Violation) string {
 	h := sha256.Sum256(append([]byte(v.Signature), v.Case...))
 	name := fmt.Sprintf("%s-%s.json", r.Property, hex.EncodeToString(h[:6]))
-	dir := filepath.Join(Root, "replays")
+	dir := filepath.Join(OutRoot, "replays")
 	os.MkdirAll(dir, 0o755)
 	path := filepath.Join(dir, name)
 	b, _ := json.MarshalIndent(map[string]any{
